@@ -29,6 +29,14 @@ def df_note(pid):
             "that come from this property's text are reported by this check.")
 
 
+PAST_NOTE = (" Objects with a past: a deterministic share of the meshes and fields the check works on is not fresh from the constructor but "
+             "reaches the same state (bit for bit, else the fresh object is used) through in-place steps of the public API with every "
+             "derived attribute read at the far end (harness/lat.py arrive_in_place, harness/fld.py lived / afterlife / rewrite_in_place / "
+             "away_and_back / labelled_field / disown), so that memoised or shared state that goes stale is seen by every property. An "
+             "exception raised by the library on a call the harness makes without a guard is reported as a violation of the property "
+             "being checked; a fault of the harness itself is a MACHINERY-ERROR (exit 2).")
+
+
 checks, na = [], []
 for pid in ALL:
     path = os.path.join(ROOT, "harness", "props", pid.lower() + ".py")
@@ -49,7 +57,7 @@ for pid in ALL:
         "engine": "tlc+conformance",
         "level_claimed": {"category": meta.get("level", "model_checking"), "text": meta["level_text"],
                           "design_ref": meta.get("design_ref", f"DESIGN.md section 7, {pid}")},
-        "level_note": meta["level_note"] + df_note(pid),
+        "level_note": meta["level_note"] + df_note(pid) + PAST_NOTE,
         "technique": meta.get("technique", "explicit TLA+ specification checked exhaustively with TLC; TLC states replayed into the library and library traces validated by TLC"),
     })
 
